@@ -39,3 +39,7 @@ ASSUME.update({
          "real goroutine interleavings inside ReceiveBlob are sampled by the concurrent-delivery runs, not enumerated",
          "the unbounded completeness theorem (model state = SPEC state for every world and order) is not proved yet; a complete sweep of one world is"],
 })
+ASSUME.update({
+ "C06": ["theorems cover the two caches whose incremental maintenance differs from their rebuild (attribute cache, deletes cache); every other lookup is compared live vs reloaded at every prefix by the harness only",
+         "image / EXIF / media-tag lookups are not generated (no images in the worlds)", "claim dates distinct (as C07)"],
+})
